@@ -308,6 +308,51 @@ fn all_bandwidths_space(ctx: &Ctx, nmin: usize, nmax: usize) {
     );
 }
 
+/// Pivot words: for bandwidths with m1 >= 3 (and a few with m1 = 2) every choice, per column k, of the row k + o_k (o_k <= m1) that
+/// holds the entry of largest modulus - the other band entries are small and generic. The partial pivoting of decompose() then
+/// exchanges far rows, near rows and none in every order, so fill-in from an earlier exchange meets a later, shorter one (a row
+/// exchange that swaps only the columns the pivot row had BEFORE the fill-in loses an entry: det 18.75 instead of 24).
+fn pivot_word_space(ctx: &Ctx, cfgs: &[Cfg]) {
+    for &c in cfgs {
+        let radix: Vec<u64> = (0..c.n).map(|k| (c.m1.min(c.n - 1 - k) + 1) as u64).collect();
+        let words: u64 = radix.iter().product();
+        ctx.lattice(
+            &format!("exact n={} m1={} m2={}: every pivot word (per column the row offset 0..=m1 of the dominant entry) x 2 small fillings", c.n, c.m1, c.m2),
+            words * 2,
+            |idx| format!("word#{} filling#{}", idx / 2, idx % 2),
+            |idx, acc| {
+                let mut w = idx / 2;
+                let fill = idx % 2;
+                let offs: Vec<usize> = radix.iter().map(|&rx| { let o = (w % rx) as usize; w /= rx; o }).collect();
+                let sl = slots(c);
+                let vals: Vec<Rat> = sl
+                    .iter()
+                    .map(|&(i, j)| {
+                        if i >= j && i - j == offs[j] {
+                            r((20 + 3 * j as i64) * if (i + j) % 2 == 0 { 1 } else { -1 })
+                        } else if fill == 0 {
+                            r(((i * 3 + j * 5) % 5) as i64 - 2)
+                        } else {
+                            r([1, -2, 3, 2, -1][(2 * i + j) % 5])
+                        }
+                    })
+                    .collect();
+                let dm = dense(c, &sl, &vals);
+                classify(c, &dm, acc);
+                acc.nontriv("pivot word (m1 >= 2)");
+                let mut local = Acc::new("t");
+                let res = catch(|| check_exact(c, &sl, &vals, &mut local));
+                let key = || format!("pivot word n={} m1={} m2={} offsets={:?} filling#{} band={}", c.n, c.m1, c.m2, offs, fill, model::show(&dm));
+                match res {
+                    Ok(Ok(())) => {}
+                    Ok(Err(e)) => acc.fail(idx, key(), e),
+                    Err(p) => acc.fail(idx, key(), format!("unexpected panic: {}", p)),
+                }
+            },
+        );
+    }
+}
+
 // --- arithmetic operators ---------------------------------------------------------------------------
 fn arithmetic_case(c: Cfg) -> Result<(), String> {
     let sl = slots(c);
@@ -1007,6 +1052,13 @@ fn main() {
 
     let cap = ctx.pick(150_000u64, 40_000_000u64);
     all_bandwidths_space(&ctx, 6, 10);
+    {
+        let mut pw = vec![Cfg { n: 4, m1: 3, m2: 0 }, Cfg { n: 4, m1: 3, m2: 1 }, Cfg { n: 5, m1: 3, m2: 0 }, Cfg { n: 5, m1: 3, m2: 1 }, Cfg { n: 5, m1: 4, m2: 0 }, Cfg { n: 5, m1: 4, m2: 2 }, Cfg { n: 5, m1: 2, m2: 1 }, Cfg { n: 6, m1: 3, m2: 1 }, Cfg { n: 6, m1: 4, m2: 1 }, Cfg { n: 6, m1: 5, m2: 0 }];
+        if ctx.thorough() {
+            pw.extend([Cfg { n: 7, m1: 3, m2: 2 }, Cfg { n: 7, m1: 4, m2: 1 }, Cfg { n: 7, m1: 6, m2: 0 }, Cfg { n: 8, m1: 3, m2: 1 }]);
+        }
+        pivot_word_space(&ctx, &pw);
+    }
     let leftover = exhaustive_spaces(&ctx, ctx.pick(4, 5), cap);
     deviation_space(&ctx, &leftover, 2, "(configurations too large for exhaustive filling)");
     ctx.lattice(
